@@ -226,4 +226,27 @@ def fixed_programs():
                        ("error", ["boom"]), ("error", []), ("pcall", ["F", 1]), ("yield", [5, 6]), ("yield", []), ("tostring", [12]), ("wrapfn", [10])):
         for via in ("create", "wrap"):
             host_body(body, args, via)
+    # bodies with named parameters and '...', first resumed with fewer / exactly / more values than parameters
+    def param_body(ps, va, nargs, via):
+        def build(p):
+            inside = [p.id(x) for x in ps] + ([p.call(p.id("select"), [p.str("#"), p.dots()]), p.dots()] if va else [])
+            body = p.func(ps, p.block([p.emit([p.str("in")] + inside),
+                                       p.local(["y"], [p.call(_co(p, "yield"), [p.str("y1")])]),
+                                       p.emit([p.str("again"), p.id("y")] + [p.id(x) for x in ps] + ([p.call(p.id("select"), [p.str("#"), p.dots()])] if va else [])),
+                                       p.ret([p.id(x) for x in ps][::-1])]), va=va, ud=va)
+            args = [p.num(100 + i) for i in range(nargs)]
+            if via == "create":
+                return [p.local(["c"], [p.call(_co(p, "create"), [body])]),
+                        p.emit([p.str("r1"), p.call(_co(p, "resume"), [p.id("c")] + args)]),
+                        p.emit([p.str("r2"), p.call(_co(p, "resume"), [p.id("c"), p.str("Y")])]),
+                        p.emit([p.str("st"), p.call(_co(p, "status"), [p.id("c")])])]
+            return [p.local(["w"], [p.call(_co(p, "wrap"), [body])]),
+                    p.emit([p.str("w1"), p.call(p.id("w"), args)]),
+                    p.emit([p.str("w2"), p.call(p.id("w"), [p.str("Y")])])]
+        mk(build)
+    for ps in ([], ["a"], ["a", "b"], ["a", "b", "c"]):
+        for va in (False, True):
+            for nargs in range(0, len(ps) + 3):
+                for via in ("create", "wrap"):
+                    param_body(ps, va, nargs, via)
     return out
